@@ -9,7 +9,8 @@ use serde::{Deserialize, Serialize};
 use soroban_sdk::xdr::ScVal;
 use soroban_sdk::Address;
 
-const CHAINS: [&str; 4] = ["ethereum", "avalanche", "never-trusted", HUB_CHAIN];
+// the default destination has mixed case: chain names are opaque strings and must be announced byte for byte
+const CHAINS: [&str; 4] = ["Ethereum-Sepolia", "avalanche", "never-trusted", HUB_CHAIN];
 const SALTS: [[u8; 32]; 4] = [[0x51; 32], [0x52; 32], [0x53; 32], [0x59; 32]];
 
 #[derive(Clone, Hash)]
@@ -80,7 +81,7 @@ impl Scenario for C18 {
         let w = &iw.w;
         let env = &w.env;
         let local_meta: Vec<(Vec<u8>, Vec<u8>, u32)> = vec![
-            (b"Token One".to_vec(), b"ONE".to_vec(), 7),
+            (b" Token One ".to_vec(), b"ONE".to_vec(), 7),
             ("Жетон 🚀".as_bytes().to_vec(), "J€".as_bytes().to_vec(), 255),
             (b"Z".to_vec(), b"Z".to_vec(), 0),
         ];
@@ -111,6 +112,9 @@ impl Scenario for C18 {
             (b"W".to_vec(), vec![], 7, Some(false)),
             (vec![0xff, 0xfe, 0x41], b"W".to_vec(), 7, None),
             (b"W255".to_vec(), b"W".to_vec(), 255, Some(true)),
+            // blanks are characters like any other: representable, and announced as they are
+            (b" ".to_vec(), b"W".to_vec(), 7, Some(true)),
+            (b"W".to_vec(), b"SPC ".to_vec(), 7, Some(true)),
         ];
         canon.push(CanonTok { addr: iw.assets[0].clone(), registered: true, representable: Some(true) });
         canon.push(CanonTok { addr: iw.assets[1].clone(), registered: false, representable: Some(true) });
@@ -344,7 +348,7 @@ fn main() {
         let mut o = Opts::new(tier, if thorough { 11 } else { 9 });
         o.min_depth = 2;
         o.xcheck = tier == "thorough";
-        o.rule = "histories of trusted-chain changes (ethereum, avalanche, the hub itself) followed by remote deployment requests: deploy_remote_interchain_token for caller U0 / U1 x 4 salts (3 registered by U0 with metadata incl. multi-byte name and decimals 0/7/255; one never used; U1 reusing U0's salts) and deploy_remote_canonical_token for a registered asset contract, an unregistered one and 5 canonical tokens with unusual metadata (256 decimals, empty name, empty symbol, non-UTF-8 name, 255 decimals); destination trusted / removed again / never trusted / the hub; gas -1, 0, 1, balance, balance+1; authorised by the payer / the other user / nobody. Announced payload, gas_paid and token_deployment_started are compared with the independent ABI encoding of the token's actual metadata; every other balance must stay put".into();
+        o.rule = "histories of trusted-chain changes (a mixed-case name, a lower-case name, the hub itself) followed by remote deployment requests: deploy_remote_interchain_token for caller U0 / U1 x 4 salts (3 registered by U0 with metadata incl. multi-byte name and decimals 0/7/255; one never used; U1 reusing U0's salts) and deploy_remote_canonical_token for a registered asset contract, an unregistered one and 7 canonical tokens with unusual metadata (256 decimals, empty name, empty symbol, non-UTF-8 name, 255 decimals, a name that is one blank, a symbol ending in a blank); destination trusted / removed again / never trusted / the hub; gas -1, 0, 1, balance, balance+1; authorised by the payer / the other user / nobody. Announced payload, gas_paid and token_deployment_started are compared with the independent ABI encoding of the token's actual metadata; every other balance must stay put".into();
         (C18 { thorough }, o)
     });
 }
